@@ -70,10 +70,33 @@ func (c cfgCase) toJSON() []byte {
 }
 
 // toSSV renders the plugin-option syntax; '=' inside values is written as `\=` as plugin hosts do.
-func (c cfgCase) toSSV() string {
+func (c cfgCase) toSSV() string { return c.toSSVOrder(c.keys(), true) }
+
+// ssvVariants: the same options in other legal renderings - without the trailing ';' and with each
+// base64-valued option (whose value ends in escaped '=' signs) moved to the end of the string.
+func (c cfgCase) ssvVariants() []string {
+	ks := c.keys()
+	out := []string{c.toSSVOrder(ks, false)}
+	for _, last := range []string{"UID", "PublicKey"} {
+		if _, ok := c[last]; !ok {
+			continue
+		}
+		var o []string
+		for _, k := range ks {
+			if k != last {
+				o = append(o, k)
+			}
+		}
+		o = append(o, last)
+		out = append(out, c.toSSVOrder(o, false), c.toSSVOrder(o, true))
+	}
+	return out
+}
+
+func (c cfgCase) toSSVOrder(keys []string, trailing bool) string {
 	var parts []string
 	esc := func(s string) string { return strings.ReplaceAll(s, "=", `\=`) }
-	for _, k := range c.keys() {
+	for _, k := range keys {
 		switch v := c[k].(type) {
 		case string:
 			parts = append(parts, k+"="+esc(v))
@@ -86,6 +109,9 @@ func (c cfgCase) toSSV() string {
 		case []string:
 			parts = append(parts, k+"="+strings.Join(v, ","))
 		}
+	}
+	if !trailing {
+		return strings.Join(parts, ";")
 	}
 	return strings.Join(parts, ";") + ";"
 }
@@ -352,6 +378,17 @@ func init() {
 				msg = "JSON file: " + d
 			} else if d := c20Diff(gotS, want); d != "" {
 				msg = "option string: " + d
+			}
+			if msg == "" && len(cs) > 1 {
+				for _, v := range cs.ssvVariants() {
+					rep.Executions++
+					rep.Transitions++
+					if d := c20Diff(c20Run(v), want); d != "" {
+						msg = "option string (other rendering): " + d
+						ssv = v
+						break
+					}
+				}
 			}
 			// the ssv front end cannot express an empty-string element inside AlternativeNames differently
 			// from JSON; equality between the two is implied by both matching the table
